@@ -173,19 +173,24 @@ def check_decisions(ck):
             for (alive, running, raised) in combos:
                 for kt in (True, False):
                     for sudo in (False, True):
-                        sits.append(({'timeout': timeout, 'join_end': je, 'alive_reported': alive,
-                                      'child_running': running, 'worker_raised': raised}, kt, sudo))
+                        sit = {'timeout': timeout, 'join_end': je, 'alive_reported': alive,
+                               'child_running': running, 'worker_raised': raised}
+                        if je == 'interrupt':
+                            # Ctrl-C, or SIGTERM: delivered through whatever handler is installed for it
+                            sit['signal'] = int(signal.SIGTERM if (len(sits) % 2) else signal.SIGINT)
+                        sits.append((sit, kt, sudo))
     # interrupts that arrive while run() is still inside thread.start()
     for timeout in (-1, 5, 700):
         for kt in (True, False):
             for sudo in (False, True):
+                sg = int(signal.SIGTERM if sudo else signal.SIGINT)
                 sits.append(({'timeout': timeout, 'join_end': 'interrupt', 'alive_reported': False, 'child_running': True,
-                              'worker_raised': False, 'start_interrupt': 'after-launch'}, kt, sudo))
+                              'worker_raised': False, 'start_interrupt': 'after-launch', 'signal': sg}, kt, sudo))
                 sits.append(({'timeout': timeout, 'join_end': 'interrupt', 'alive_reported': False, 'child_running': False,
-                              'worker_raised': False, 'start_interrupt': 'before-launch'}, kt, sudo))
+                              'worker_raised': False, 'start_interrupt': 'before-launch', 'signal': sg}, kt, sudo))
     ops = []
     for (s, kt, sudo) in sits:
-        op = dict((k, v) for k, v in s.items() if k != 'start_interrupt')
+        op = dict((k, v) for k, v in s.items() if k not in ('start_interrupt', 'signal'))
         op.update({'op': 'c16.run', 'tree': tree0, 'kill_tree': kt})
         ops.append(op)
         if s['timeout'] > 0:
@@ -257,10 +262,15 @@ def check_decisions(ck):
             clause = 'minus_one_disables' if s['timeout'] == -1 and s['join_end'] != 'interrupt' else 'finished_never_killed'
             ck.oracle_fail(clause, inp, {'killed': killed}, signature=dict(sig, clause=clause))
         end = obs['trace'][-1]
-        if end[0] == 'hangs':
+        if s.get('signal') == int(signal.SIGTERM):
+            ck.count('decision: interrupted by SIGTERM through the installed handler')
+        if end[0] == 'dies':
+            ck.oracle_fail('running_child_killed', inp, {'end': end, 'note': 'SIGTERM would kill ReBench at once'},
+                           signature=dict(sig, clause='running_child_killed', sigterm='default action'))
+        elif end[0] == 'hangs':
             ck.oracle_fail('rebench_exits', inp, {'end': end}, signature=dict(sig, clause='rebench_exits'))
         elif s['join_end'] == 'interrupt':
-            if end != ['raise', 'KeyboardInterrupt']:
+            if end[0] != 'raise' or end[1] == 'worker':
                 ck.oracle_fail('interrupt_reraised', inp, {'end': end}, signature=dict(sig, clause='interrupt_reraised'))
         elif should and end != ['return', True]:
             ck.oracle_fail('timeout_reported', inp, {'end': end}, signature=dict(sig, clause='timeout_reported'))
@@ -273,7 +283,9 @@ def check_real_thread(ck, n):
     rng = ck.rng
     pending_model = []
     for idx in range(n):
-        mode = ['timeout', 'interrupt', 'finish', 'no-limit-finish', 'interrupt-with-limit', 'interrupt-at-start'][idx % 6]
+        mode = ['timeout', 'interrupt', 'finish', 'no-limit-finish', 'interrupt-with-limit', 'interrupt-at-start',
+                'interrupt-before-pid'][idx % 7]
+        sig_kind = signal.SIGTERM if (idx // 7) % 2 else signal.SIGINT      # Ctrl-C or SIGTERM, as real signals
         sub = gen_tree(rng, [1000 * (idx + 1)], rng.choice([0, 1, 2, 3]), 3)
         holder = {}
 
@@ -287,14 +299,15 @@ def check_real_thread(ck, n):
             outcome, timeout = drive.Outcome(hang=True, out='partial\n'), -1
         elif mode == 'interrupt-with-limit':
             outcome, timeout = drive.Outcome(hang=True, out='partial\n'), 30
-        elif mode == 'interrupt-at-start':
+        elif mode in ('interrupt-at-start', 'interrupt-before-pid'):
             outcome, timeout = drive.Outcome(hang=True, out='partial\n'), rng.choice([-1, 30])
         elif mode == 'finish':
             outcome, timeout = drive.Outcome(rc=rng.choice([0, 1, 3]), out='all\n'), 30
         else:
             outcome, timeout = drive.Outcome(rc=0, out='all\n'), -1
-        layer = K.TreeLayer(lambda rec: outcome, subtree_of, sigint_main=mode in ('interrupt', 'interrupt-with-limit'))
-        use_sudo = (idx // 6) % 2 == 1       # every second round goes through the (scripted) sudo channel
+        layer = K.TreeLayer(lambda rec: outcome, subtree_of, sigint_main=mode in ('interrupt', 'interrupt-with-limit'),
+                            sig=sig_kind, slow_popen=(mode == 'interrupt-before-pid'))
+        use_sudo = (idx // 7) % 2 == 1       # every second round goes through the (scripted) sudo channel
         sudo = K.SudoWorld()
         alive_seen = []
         orig_alive = swt._SubprocessThread.is_alive
@@ -317,7 +330,7 @@ def check_real_thread(ck, n):
             if mode == 'interrupt-at-start':
                 # the worker is launched; a real SIGINT reaches the main thread before run() gets to the join:
                 # the KeyboardInterrupt is raised here, i.e. "inside thread.start()" as run() sees it
-                signal.pthread_kill(threading.main_thread().ident, signal.SIGINT)
+                layer.sent = K.real_signal_to_main_thread(sig_kind)
                 for _ in range(200):
                     pass
         swt._SubprocessThread.start = start_spy
@@ -348,6 +361,8 @@ def check_real_thread(ck, n):
                     end = ['return', ret[0] == swt.E_TIMEOUT]
                 except KeyboardInterrupt:
                     end = ['raise', 'KeyboardInterrupt']
+                except SystemExit as e:
+                    end = ['raise', 'SystemExit(%s)' % (e.code,)]
                 kills = list(layer.kills)
                 if use_sudo:
                     # what run() itself asked for is the list handed to sudo; the helper's SIGKILLs are in layer.kills
@@ -360,15 +375,23 @@ def check_real_thread(ck, n):
             swt._SubprocessThread.start = orig_start
         wall = time.time() - t_start
         tree = holder.get('tree')
-        inp = {'mode': mode, 'timeout': timeout, 'tree': tree, 'uses_sudo': use_sudo}
+        inp = {'mode': mode, 'timeout': timeout, 'tree': tree, 'uses_sudo': use_sudo,
+               'signal': 'SIGTERM' if sig_kind == signal.SIGTERM else 'SIGINT'}
         interrupted = mode.startswith('interrupt')
+        if interrupted:
+            ck.count('real-thread: interrupted by a real %s' % inp['signal'])
+            if layer.sent is False:
+                # no Python handler for SIGTERM is installed: the signal would have killed ReBench (not sent)
+                ck.oracle_fail('running_child_killed', inp, {'note': 'no SIGTERM handler installed while a process runs'},
+                               signature={'clause': 'running_child_killed', 'mode': 'real-thread', 'sigterm': 'default action'})
+                continue
         if use_sudo:
             ck.count('real-thread: kill through sudo')
             if kills and sorted(set(privileged)) != sorted(K.all_pids(tree)):
                 ck.oracle_fail('tree_all_killed', inp, {'killed_by_the_privileged_helper': privileged,
                                                         'tree': K.all_pids(tree)},
                                signature={'clause': 'tree_all_killed', 'mode': 'sudo-channel'})
-        running = mode in ('timeout', 'interrupt', 'interrupt-with-limit', 'interrupt-at-start')
+        running = mode in ('timeout', 'interrupt', 'interrupt-with-limit', 'interrupt-at-start', 'interrupt-before-pid')
         ck.count('real-thread:' + mode)
         ck.impl_traces += 1
         ck.case(nontrivial_key=('rt', idx, mode), sample={'mode': mode, 'kills': len(kills), 'end': end})
@@ -386,6 +409,8 @@ def check_real_thread(ck, n):
         sig = {'mode': 'real-thread', 'join_end': 'interrupt' if interrupted else 'deadline'}
         if mode == 'interrupt-at-start':
             sig['during'] = 'thread.start()'
+        if mode == 'interrupt-before-pid':
+            sig['during'] = 'Popen has not returned (pid not yet published)'
         left = [p for p in want if p not in dead]
         if running and left:
             ck.oracle_fail('running_child_killed', inp, {'left_alive': left, 'signals': sigs[:40],
@@ -404,7 +429,7 @@ def check_real_thread(ck, n):
                            signature=dict(sig, clause='running_child_killed'))
         if not running and kills:
             ck.oracle_fail('finished_never_killed', inp, {'killed': kills}, signature=dict(sig, clause='finished_never_killed'))
-        if interrupted and end != ['raise', 'KeyboardInterrupt']:
+        if interrupted and (not end or end[0] != 'raise'):
             ck.oracle_fail('interrupt_reraised', inp, {'end': end}, signature=dict(sig, clause='interrupt_reraised'))
         if mode == 'timeout' and (end != ['return', True] or ret[1] != 'partial\n'):
             ck.oracle_fail('timeout_reported', inp, {'end': end, 'output': ret and ret[1]},
@@ -486,7 +511,7 @@ def check_classification(ck, n):
 
 
 # ------------------------------------------------------------------ E. real processes
-def real_scenario(ck, idx, kind, depth, fanout, limit, ignore, which, results, forker=False):
+def real_scenario(ck, idx, kind, depth, fanout, limit, ignore, which, results, forker=False, extra=None):
     """kind: 'timeout' | 'INT' | 'TERM'. One real `rebench` child; liveness from /proc."""
     with K._threads_lock:
         ck._c16_real = getattr(ck, '_c16_real', 0) + 1
@@ -499,16 +524,24 @@ def real_scenario(ck, idx, kind, depth, fanout, limit, ignore, which, results, f
         # the signal arrives while BH runs; `which` = 2 puts a normal invocation before it
         benchmarks = [('BH', 'hangat' if which >= 2 else 'hang', depth, fanout)]
         lim = -1 if limit is None else limit
-    conf = K.write_real_scenario(wd, benchmarks, lim, ignore, invocations=max(1, which), forker=forker)
+    extra = extra or {}
+    lines = extra.get('debug_lines', 0)          # with -d: a burst of output, read by the verbose select/readline loop
+    parallel = bool(extra.get('parallel'))       # no exclusive runs: every process is started by a worker thread
+    if parallel:
+        benchmarks.append(('BG', 'hang', 0, 0))
+    conf = K.write_real_scenario(wd, benchmarks, lim, ignore, invocations=max(1, which), forker=forker, lines=lines,
+                                 exclusive=not parallel)
     # with `forker` the harness also starts a multi-threaded python process whose helper is forked by a non-main thread
     expected_nodes = K.node_count(depth, fanout) + (4 if forker else 0)
-    sess = K.RealSession(wd, conf)
+    sess = K.RealSession(wd, conf, extra_args=(['-d'] if lines else []), popen_delay=extra.get('popen_delay', 0))
     log = os.path.join(wd, 'BH.log')
     res = {'kind': kind, 'depth': depth, 'fanout': fanout, 'limit': lim, 'ignore_timeouts': ignore, 'idx': idx,
-           'signal_at_invocation': which, 'forker': forker}
+           'signal_at_invocation': which, 'forker': forker, 'extra': extra}
     try:
         def ready():
             pids, marks = K.read_log(log)
+            if parallel and 'spawned' not in K.read_log(os.path.join(wd, 'BG.log'))[1]:
+                return False
             return 'spawned' in marks and marks.count('node') >= expected_nodes
         if kind == 'timeout':
             rc = sess.wait(lim + 40)
@@ -520,13 +553,16 @@ def real_scenario(ck, idx, kind, depth, fanout, limit, ignore, which, results, f
             # interrupt in the few instructions between thread.start() and the join is outside the model, see
             # the claim's note), and make sure it is asleep before the signal is sent
             time.sleep(0.4)
-            K.wait_until(lambda: K.main_thread_sleeping(sess.pid), 5)
+            if not extra.get('popen_delay'):
+                K.wait_until(lambda: K.main_thread_sleeping(sess.pid), 5)
             sess.signal(signal.SIGINT if kind == 'INT' else signal.SIGTERM)
             rc = sess.wait(30)
         res['exit'] = rc
         if rc is None:
             res['diagnostics'] = K.thread_diagnostics(sess.pid)
         pids, marks = K.read_log(log)
+        if parallel:
+            pids = pids + K.read_log(os.path.join(wd, 'BG.log'))[0]
         pids = [p for p in pids if p != sess.pid]
         res['pids'] = pids
         res['nodes_recorded'] = marks.count('node')
@@ -544,7 +580,8 @@ def real_scenario(ck, idx, kind, depth, fanout, limit, ignore, which, results, f
         _p2, marks_n = K.read_log(os.path.join(wd, 'BN.log'))
         res['normal_done'] = 'done' in marks_n
     finally:
-        res['cleaned_up'] = sess.cleanup(res.get('pids', []) + K.read_log(log)[0])
+        res['cleaned_up'] = sess.cleanup(res.get('pids', []) + K.read_log(log)[0] +
+                                         (K.read_log(os.path.join(wd, 'BG.log'))[0] if parallel else []))
         try:
             res['output_tail'] = open(os.path.join(wd, 'rebench.out')).read()[-400:]
         except IOError:
@@ -560,7 +597,8 @@ def check_real(ck, plans):
     def worker(i, plan):
         with sem:
             try:
-                real_scenario(ck, i, *plan[:6], results=results, forker=bool(plan[6]) if len(plan) > 6 else False)
+                real_scenario(ck, i, *plan[:6], results=results, forker=bool(plan[6]) if len(plan) > 6 else False,
+                              extra=plan[7] if len(plan) > 7 else None)
             except Exception as e:  # noqa
                 results.append({'idx': i, 'infra': repr(e)})
     for i, plan in enumerate(plans):
@@ -573,7 +611,10 @@ def check_real(ck, plans):
         if 'infra' in res:
             raise lib.InfraError('real-process scenario failed to run: %s' % res['infra'])
         kind = res['kind']
-        inp = dict((k, res[k]) for k in ('kind', 'depth', 'fanout', 'limit', 'ignore_timeouts', 'signal_at_invocation', 'forker'))
+        inp = dict((k, res[k]) for k in ('kind', 'depth', 'fanout', 'limit', 'ignore_timeouts', 'signal_at_invocation', 'forker',
+                                         'extra'))
+        for k in sorted(res['extra']):
+            ck.count('real: %s' % k)
         if res['forker']:
             ck.count('real: tree with a helper forked by a non-main thread')
         ck.count('real:%s depth=%d' % (kind, res['depth']))
@@ -596,10 +637,16 @@ def check_real(ck, plans):
                            signature={'clause': 'no_descendant_left_alive', 'mode': 'real-cli',
                                       'after': 'timeout' if kind == 'timeout' else 'signal'})
         if kind == 'timeout':
-            if not res['normal_done'] or res['rows'].get('BN') != 2:
+            lines = res['extra'].get('debug_lines', 0)
+            if res['normal_done'] and lines and res['rows'].get('BN') != 2 + lines:
+                # the invocation that finished in time: everything it printed is recorded (the statement of C06;
+                # checked here because this slice drives real processes through the -d output loop)
+                ck.oracle_fail('data_printed_is_recorded', inp, detail,
+                               signature={'clause': 'data_printed_is_recorded', 'mode': 'real-cli', 'debug': True})
+            elif not res['normal_done'] or res['rows'].get('BN') != 2 + lines:
                 ck.oracle_fail('session_continues_after_timeout', inp, detail,
                                signature={'clause': 'session_continues_after_timeout', 'mode': 'real-cli'})
-            want_rows = 1 if res['ignore_timeouts'] else 0
+            want_rows = (1 + lines) if res['ignore_timeouts'] else 0
             if res['rows'].get('BH') != want_rows or res['late_output']:
                 ck.oracle_fail('timeout_classified', inp, detail,
                                signature={'clause': 'timeout_classified', 'mode': 'real-cli',
@@ -617,6 +664,12 @@ def real_plans(rng, n, kinds=('timeout', 'INT', 'TERM')):
         kind = kinds[i % len(kinds)]
         plans.append((kind, d, f, rng.choice([1, 2]) if kind == 'timeout' else rng.choice([None, None, 60]),
                       rng.random() < 0.5, 1 if kind == 'timeout' else rng.choice([1, 2, 2, 3]), i % 2 == 0))
+    for kind in ('TERM', 'INT', 'TERM'):
+        plans.append((kind, rng.choice([0, 1, 2]), 2, None, False, 1, False, {'parallel': True}))
+    for kind in ('INT', 'TERM'):
+        plans.append((kind, 0, 0, rng.choice([None, 60]), False, 1, False, {'popen_delay': 1.5}))
+    for ig in (True, False, True):
+        plans.append(('timeout', 1, 1, rng.choice([1, 2]), ig, 1, False, {'debug_lines': rng.choice([500, 3000, 8000])}))
     return plans
 
 
@@ -734,7 +787,7 @@ def run(ck):
         replay(ck, json.load(open(f)))
     check_trees(ck, 2000 if quick else 20000)
     check_decisions(ck)
-    check_real_thread(ck, 18 if quick else 120)
+    check_real_thread(ck, 28 if quick else 140)
     check_classification(ck, 16 if quick else 64)
     check_parallel(ck, 6 if quick else 40)
     try:  # Ctrl-C inside the parallel scheduler's join: no process may be alive when the session ends
@@ -746,7 +799,13 @@ def run(ck):
     if quick:
         # SIGTERM while the third process of the session runs (the handler must still be ours), SIGINT at the first
         plans = [('timeout', 2, 2, 1, True, 1, True), ('INT', 2, 2, None, False, 1, False),
-                 ('TERM', 1, 2, None, False, 3, True)]
+                 ('TERM', 1, 2, None, False, 3, True),
+                 # no exclusive runs: the parallel scheduler starts every process from a worker thread
+                 ('TERM', 1, 2, None, False, 1, False, {'parallel': True}),
+                 # the signal arrives while Popen has not returned yet
+                 ('INT', 0, 0, None, False, 1, False, {'popen_delay': 1.5}),
+                 # -d: a burst of output before the deadline, and for the invocation that finishes in time
+                 ('timeout', 1, 1, 1, True, 1, False, {'debug_lines': 3000})]
     else:
         plans = real_plans(rng, 63)
     check_real(ck, plans)
@@ -782,9 +841,10 @@ def replay(ck, data):
                            signature={'clause': 'tree_all_killed', 'mode': 'scripted-pgrep'})
     elif 'kind' in inp:
         check_real(ck, [(inp['kind'], inp['depth'], inp['fanout'], inp['limit'], inp['ignore_timeouts'],
-                         inp.get('signal_at_invocation', 1), inp.get('forker', False))])
-    elif inp.get('mode') in ('timeout', 'interrupt', 'finish', 'no-limit-finish', 'interrupt-with-limit', 'interrupt-at-start'):
-        check_real_thread(ck, 12)
+                         inp.get('signal_at_invocation', 1), inp.get('forker', False), inp.get('extra') or {})])
+    elif inp.get('mode') in ('timeout', 'interrupt', 'finish', 'no-limit-finish', 'interrupt-with-limit', 'interrupt-at-start',
+                             'interrupt-before-pid'):
+        check_real_thread(ck, 28)
     elif 'parallel' in inp:
         check_parallel(ck, 6)
     elif 'situation' in inp:
